@@ -45,51 +45,105 @@ theorem normGt_true {s r : Rat} (h : normGt s r = true) : distGe s r := by
 
 theorem sq_swap (a b c d : Rat) : (a - b) * (a - b) + (c - d) * (c - d) = (b - a) * (b - a) + (d - c) * (d - c) := by ring
 
+/-! ### the comparison table (`Generated/RestraintTables.lean`, read from the source on every run)
+
+The soundness theorems below are proved for EVERY table whose relations point the right way (`upperRel`: the
+test accepts only `quantity ≤ length`; `lowerRel`: only `quantity ≥ length`), strict or not; that the table
+generated from the current source is such a table is `table_sound` (`decide`).  A change of strictness in the
+source keeps soundness (and changes `C07_boundary_table` / breaks the boundary theorems); a change of direction
+breaks `table_sound` and with it every theorem that uses it. -/
+
+open PolyplyVerif.RestraintTables (Cmp)
+
+def upperRel (c : Cmp) : Prop := c = .le ∨ c = .lt
+def lowerRel (c : Cmp) : Prop := c = .ge ∨ c = .gt
+
+instance (c : Cmp) : Decidable (upperRel c) := by unfold upperRel; exact inferInstance
+instance (c : Cmp) : Decidable (lowerRel c) := by unfold lowerRel; exact inferInstance
+
+/-- every comparison of the current source points the way the property needs -/
+theorem table_sound :
+    upperRel RestraintTables.sphereIn ∧ lowerRel RestraintTables.sphereOut ∧
+    upperRel RestraintTables.cylInRadius ∧ upperRel RestraintTables.cylInHeight ∧
+    lowerRel RestraintTables.cylOutRadius ∧ lowerRel RestraintTables.cylOutHeight ∧
+    upperRel RestraintTables.rectInside ∧
+    upperRel RestraintTables.msUpper ∧ lowerRel RestraintTables.msLower ∧
+    upperRel RestraintTables.dirAngle := by decide
+
+theorem cmpNorm_upper {c : Cmp} (hc : upperRel c) {s r : Rat} (h : cmpNorm c s r = true) : distLe s r := by
+  rcases hc with rfl | rfl
+  · simp only [cmpNorm, Bool.not_eq_true'] at h; exact normGt_false h
+  · simp only [cmpNorm] at h; exact normLt_true h
+
+theorem cmpNorm_lower {c : Cmp} (hc : lowerRel c) {s r : Rat} (h : cmpNorm c s r = true) : distGe s r := by
+  rcases hc with rfl | rfl
+  · simp only [cmpNorm, Bool.not_eq_true'] at h; exact normLt_false h
+  · simp only [cmpNorm] at h; exact normGt_true h
+
+theorem cmpNum_upper {c : Cmp} (hc : upperRel c) {a b : Rat} (h : cmpNum c a b = true) : a ≤ b := by
+  rcases hc with rfl | rfl
+  · simpa [cmpNum] using h
+  · have : a < b := by simpa [cmpNum] using h
+    exact this.le
+
+theorem cmpNum_lower {c : Cmp} (hc : lowerRel c) {a b : Rat} (h : cmpNum c a b = true) : b ≤ a := by
+  rcases hc with rfl | rfl
+  · simpa [cmpNum] using h
+  · have : b < a := by simpa [cmpNum] using h
+    exact this.le
+
+theorem cmpNum_upper_false {c : Cmp} (hc : upperRel c) {a b : Rat} (h : cmpNum c a b = false) : b ≤ a := by
+  rcases hc with rfl | rfl
+  · have : b < a := by simpa [cmpNum] using h
+    exact this.le
+  · simpa [cmpNum] using h
+
 theorem test_sound (p : V3) (r : Region) (h : r.test p = true) : regionHolds p r := by
+  obtain ⟨hsi, hso, hcir, hcih, hcor, hcoh, hri, _, _, _⟩ := table_sound
   cases r with
   | sphere io c r =>
     cases io with
     | inside =>
-      simp only [Region.test, inSphere, Bool.not_eq_true'] at h
-      simp only [regionHolds]; rw [nsq_sub_comm]; exact normGt_false h
+      simp only [Region.test, inSphere] at h
+      simp only [regionHolds]; rw [nsq_sub_comm]; exact cmpNorm_upper hsi h
     | outside =>
-      simp only [Region.test, inSphere, Bool.not_eq_true'] at h
-      simp only [regionHolds]; rw [nsq_sub_comm]; exact normLt_false h
+      simp only [Region.test, inSphere] at h
+      simp only [regionHolds]; rw [nsq_sub_comm]; exact cmpNorm_lower hso h
     | other => simp only [regionHolds]
   | cylinder io c r h' =>
     cases io with
     | inside =>
-      simp [Region.test, inCylinder] at h
+      simp only [Region.test, inCylinder, Bool.and_eq_true] at h
       simp only [V3.sub] at h
       simp only [regionHolds]
       refine ⟨?_, ?_⟩
-      · rw [sq_swap]; exact normLt_true h.1
-      · rw [rabs_sub_comm]; exact h.2.le
+      · rw [sq_swap]; exact cmpNorm_upper hcir h.1
+      · rw [rabs_sub_comm]; exact cmpNum_upper hcih h.2
     | outside =>
-      simp [Region.test, inCylinder] at h
+      simp only [Region.test, inCylinder, Bool.or_eq_true] at h
       simp only [V3.sub] at h
       simp only [regionHolds]
       rcases h with h | h
-      · left; rw [sq_swap]; exact normGt_true h
-      · right; rw [rabs_sub_comm]; exact (h.le).trans (le_rabs _)
+      · left; rw [sq_swap]; exact cmpNorm_lower hcor h
+      · right; rw [rabs_sub_comm]; exact (cmpNum_lower hcoh h).trans (le_rabs _)
     | other => simp only [regionHolds]
   | rectangle io c a b e =>
     cases io with
     | inside =>
-      simp [Region.test, inRectangle] at h
+      simp only [Region.test, inRectangle, Bool.and_eq_true] at h
       simp only [V3.sub] at h
       simp only [regionHolds]
       rw [rabs_sub_comm p.x, rabs_sub_comm p.y, rabs_sub_comm p.z]
-      exact ⟨h.1.1.le, h.1.2.le, h.2.le⟩
+      exact ⟨cmpNum_upper hri h.1.1, cmpNum_upper hri h.1.2, cmpNum_upper hri h.2⟩
     | outside =>
-      simp [Region.test, inRectangle] at h
+      simp only [Region.test, inRectangle, Bool.not_eq_true', Bool.and_eq_false_iff] at h
       simp only [V3.sub] at h
       simp only [regionHolds]
       rw [rabs_sub_comm p.x, rabs_sub_comm p.y, rabs_sub_comm p.z]
       rcases h with (h | h) | h
-      · exact Or.inl h
-      · exact Or.inr (Or.inl h)
-      · exact Or.inr (Or.inr h)
+      · exact Or.inl (cmpNum_upper_false hri h)
+      · exact Or.inr (Or.inl (cmpNum_upper_false hri h))
+      · exact Or.inr (Or.inr (cmpNum_upper_false hri h))
     | other => simp only [regionHolds]
 
 theorem fulfill_sound (p : V3) (rs : List Region) (h : fulfill p rs = true) : ∀ r ∈ rs, regionHolds p r := by
@@ -111,6 +165,39 @@ theorem cosGeB_sound {d c m : Rat} (h : cosGeB d c m = true) : cosGe d c m := by
     simp only [Bool.and_eq_true, decide_eq_true_eq] at h
     exact Or.inr ⟨not_le.mp hd, h.1, h.2⟩
 
+/-- the strict form: "not (angle ≥ ref)" still gives "angle ≤ ref" -/
+theorem cosGeB_neg_false {d c m : Rat} (h : cosGeB (-d) (-c) m = false) : cosGe d c m := by
+  unfold cosGeB at h
+  unfold cosGe
+  split at h
+  · rename_i hd
+    simp only [Bool.or_eq_false_iff, decide_eq_false_iff_not, not_le] at h
+    have hc : c < 0 := by linarith [h.1]
+    have hsq : d * d < c * c * m := by
+      have := h.2
+      have e1 : -c * -c * m = c * c * m := by ring
+      have e2 : -d * -d = d * d := by ring
+      rw [e1, e2] at this; exact this
+    rcases lt_or_eq_of_le (show d ≤ 0 by linarith) with hd0 | hd0
+    · exact Or.inr ⟨hd0, hc, hsq.le⟩
+    · exact Or.inl ⟨hd0.ge, Or.inl hc.le⟩
+  · rename_i hd
+    have hd0 : 0 < d := by
+      have := not_le.mp hd; linarith
+    simp only [Bool.and_eq_false_iff, decide_eq_false_iff_not, not_lt, not_le] at h
+    refine Or.inl ⟨hd0.le, ?_⟩
+    rcases h with h | h
+    · left; linarith
+    · right
+      have e1 : -c * -c * m = c * c * m := by ring
+      have e2 : -d * -d = d * d := by ring
+      rw [e1, e2] at h; exact h.le
+
+theorem angleCmpB_upper {r : Cmp} (hr : upperRel r) {d c m : Rat} (h : angleCmpB r d c m = true) : cosGe d c m := by
+  rcases hr with rfl | rfl
+  · exact cosGeB_sound (by simpa [angleCmpB] using h)
+  · exact cosGeB_neg_false (by simpa [angleCmpB] using h)
+
 theorem isRestricted_sound (o : RwOption) (step : V3) (h : isRestricted (some o) step = true) :
     directionHolds o step := by
   simp only [isRestricted] at h
@@ -118,7 +205,7 @@ theorem isRestricted_sound (o : RwOption) (step : V3) (h : isRestricted (some o)
   · exact absurd h (by simp)
   · rename_i hs
     simp only [bne_iff_ne, ne_eq, Decidable.not_not] at hs
-    exact ⟨hs, cosGeB_sound h⟩
+    exact ⟨hs, angleCmpB_upper table_sound.2.2.2.2.2.2.2.2.2 h⟩
 
 /-! ### milestones -/
 
@@ -129,8 +216,8 @@ theorem milestones_sound (posOf : Nat → Option V3) (box p : V3) (rs : List DRe
   simp only [checksMilestones, List.all_eq_true] at h
   have := h r hr
   rw [hq] at this
-  simp only [Bool.and_eq_true, Bool.not_eq_true'] at this
-  exact ⟨normLt_false this.2, normGt_false this.1⟩
+  simp only [Bool.and_eq_true] at this
+  exact ⟨cmpNorm_lower table_sound.2.2.2.2.2.2.2.2.1 this.2, cmpNorm_upper table_sound.2.2.2.2.2.2.2.1 this.1⟩
 
 /-! ### acceptance -/
 
@@ -307,6 +394,213 @@ theorem eeCandidates_range (avg contour : Rat) (h : 0 < avg) :
     have h4 : ((i : Int) : Rat) = (i : Rat) := by norm_cast
     rw [h4] at h3
     linarith
+
+
+/-! ### average step length, contour length, registration of restraints -/
+
+theorem foldl_add_eq_sum {α : Type} (f : α → Rat) (l : List α) (a : Rat) :
+    l.foldl (fun acc e => acc + f e) a = a + (l.map f).sum := by
+  induction l generalizing a with
+  | nil => simp
+  | cons x t ih => simp only [List.foldl_cons, ih, List.map_cons, List.sum_cons]; ring
+
+/-- the contour length is the sum of the pair sizes over the path edges -/
+theorem pathLength_eq_sum (size : Nat → Nat → Rat) (path : List (Nat × Nat)) :
+    pathLength size path = (path.map fun e => size e.1 e.2).sum := by
+  unfold pathLength
+  rw [foldl_add_eq_sum (fun e : Nat × Nat => size e.1 e.2)]; ring
+
+theorem sum_bounds (l : List Rat) (lo hi : Rat) (h : ∀ x ∈ l, lo ≤ x ∧ x ≤ hi) :
+    (l.length : Rat) * lo ≤ l.sum ∧ l.sum ≤ (l.length : Rat) * hi := by
+  induction l with
+  | nil => simp
+  | cons x t ih =>
+    have hx := h x (by simp)
+    have ht := ih (fun y hy => h y (by simp [hy]))
+    simp only [List.length_cons, List.sum_cons]
+    push_cast
+    constructor <;> nlinarith [ht.1, ht.2, hx.1, hx.2]
+
+/-- `compute_avg_step_length`: the average is the mean of the pair sizes over the edges of the path -/
+theorem computeAvg_spec (size : Nat → Nat → Rat) (path : List (Nat × Nat)) (a c : Rat)
+    (h : computeAvgStepLength size path = some (a, c)) :
+    path ≠ [] ∧ c = (path.map fun e => size e.1 e.2).sum ∧ a * (path.length : Rat) = c ∧
+      a = c / (path.length : Rat) := by
+  unfold computeAvgStepLength at h
+  cases path with
+  | nil => simp at h
+  | cons e t =>
+    simp only [Option.some.injEq, Prod.mk.injEq] at h
+    obtain ⟨ha, hc⟩ := h
+    have hlen : ((e :: t).length : Rat) ≠ 0 := by
+      simp only [List.length_cons]; push_cast; positivity
+    refine ⟨by simp, ?_, ?_, ?_⟩
+    · rw [← hc, pathLength_eq_sum]
+    · rw [← ha, ← hc]; field_simp
+    · rw [← ha, ← hc]
+
+theorem computeAvg_between (size : Nat → Nat → Rat) (path : List (Nat × Nat)) (a c lo hi : Rat)
+    (h : computeAvgStepLength size path = some (a, c))
+    (hb : ∀ e ∈ path, lo ≤ size e.1 e.2 ∧ size e.1 e.2 ≤ hi) : lo ≤ a ∧ a ≤ hi := by
+  obtain ⟨hne, hc, hmul, _⟩ := computeAvg_spec size path a c h
+  have hlen : (0 : Rat) < (path.length : Rat) := by
+    have : 0 < path.length := List.length_pos_iff.mpr hne
+    exact_mod_cast this
+  have hs := sum_bounds (path.map fun e => size e.1 e.2) lo hi (by
+    intro x hx
+    simp only [List.mem_map] at hx
+    obtain ⟨e, he, rfl⟩ := hx
+    exact hb e he)
+  rw [List.length_map, ← hc, ← hmul] at hs
+  constructor
+  · by_contra hlt
+    have := not_le.mp hlt
+    nlinarith [hs.1]
+  · by_contra hlt
+    have := not_le.mp hlt
+    nlinarith [hs.2]
+
+/-- one step is at most the contour length when no pair size is negative -/
+theorem computeAvg_le_contour (size : Nat → Nat → Rat) (path : List (Nat × Nat)) (a c : Rat)
+    (h : computeAvgStepLength size path = some (a, c)) (hb : ∀ e ∈ path, 0 ≤ size e.1 e.2) : 0 ≤ a ∧ a ≤ c := by
+  obtain ⟨hne, hc, hmul, _⟩ := computeAvg_spec size path a c h
+  have hlen : (1 : Rat) ≤ (path.length : Rat) := by
+    have : 1 ≤ path.length := List.length_pos_iff.mpr hne
+    exact_mod_cast this
+  have hs := sum_bounds (path.map fun e => size e.1 e.2) 0 c (by
+    intro x hx
+    simp only [List.mem_map] at hx
+    obtain ⟨e, he, rfl⟩ := hx
+    refine ⟨hb e he, ?_⟩
+    rw [hc]
+    exact List.single_le_sum (by
+      intro y hy
+      simp only [List.mem_map] at hy
+      obtain ⟨e', he', rfl⟩ := hy
+      exact hb e' he') _ (List.mem_map.mpr ⟨e, he, rfl⟩))
+  have h0 : 0 ≤ c := by
+    have := hs.1; simp only [mul_zero] at this; rw [hc]; exact this
+  have ha0 : 0 ≤ a := by
+    by_contra hlt
+    have := not_le.mp hlt
+    nlinarith
+  exact ⟨ha0, by nlinarith⟩
+
+/-- the candidate grid of a stretch of `n` equal steps: exactly `avg, 2·avg, …, (n−1)·avg` -/
+theorem eeCandidates_uniform (avg : Rat) (n : Nat) (h : 0 < avg) :
+    eeCandidates avg ((n : Rat) * avg) = (List.range (n - 1)).map fun (i : Nat) => avg + (i : Rat) * avg := by
+  unfold eeCandidates arange
+  have hq : ((n : Rat) * avg - avg) / avg = (n : Rat) - 1 := by field_simp
+  rw [hq, ceilInt_eq]
+  have : (⌈(n : Rat) - 1⌉).toNat = n - 1 := by
+    have : (n : Rat) - 1 = ((n : Int) - 1 : Int) := by push_cast; ring
+    rw [this, Int.ceil_intCast]
+    omega
+  rw [this]
+
+/-- `set_distance_restraint` only appends entries: what a node carries stays -/
+theorem setDistanceRestraint_mono (tree : List (Nat × Nat)) (store store' : DStore) (target ref : Nat)
+    (d avg tol : Rat) (h : setDistanceRestraint tree store target ref d avg tol = .ok store') (v : Nat) :
+    ∃ extra, store'.get v = store.get v ++ extra := by
+  unfold setDistanceRestraint at h
+  split at h
+  · exact absurd h (by simp)
+  · rename_i anc _
+    have key : ∀ r t, (match pathFrom tree r t with
+        | none => (Except.error "crash" : Except String DStore)
+        | some path => .ok ((boundsAlong path r t d avg tol).foldl (fun (s : DStore) (e : Nat × DRestr) => s.append e.1 e.2) store)) = .ok store' →
+        ∃ extra, store'.get v = store.get v ++ extra := by
+      intro r t hk
+      split at hk
+      · exact absurd hk (by simp)
+      · rename_i path hp
+        have : store' = (boundsAlong path r t d avg tol).foldl (fun s e => s.append e.1 e.2) store := by
+          simpa using hk.symm
+        rw [this, foldl_append_get]
+        exact ⟨_, rfl⟩
+    by_cases h1 : (anc == target) = true
+    · simp only [h1, if_true] at h
+      exact key target ref h
+    · by_cases h2 : (anc != ref) = true
+      · simp [h1, h2] at h
+      · simp only [h1, h2] at h
+        exact key ref target h
+
+/-- `set_restraints`: every declared restraint is registered with the mean pair size over ALL tree edges, and
+its entry on the later-placed end survives the registration of the other restraints -/
+theorem setRestraints_entries (tree : List (Nat × Nat)) (size : Nat → Nat → Rat) (ds : List Declared) :
+    ∀ (store store' : DStore), setRestraints tree size store ds = .ok store' →
+    (∀ v, ∃ extra, store'.get v = store.get v ++ extra) ∧
+    ∀ r ∈ ds, ∃ avg c rr tt mid, computeAvgStepLength size tree = some (avg, c) ∧
+      ((rr = r.ref ∧ tt = r.target) ∨ (rr = r.target ∧ tt = r.ref)) ∧
+      pathFrom tree rr tt = some (rr :: mid ++ [tt]) ∧
+      (tt ∉ rr :: mid → (⟨rr, r.d + r.tol + avg, r.d - r.tol⟩ : DRestr) ∈ store'.get tt) := by
+  induction ds with
+  | nil =>
+    intro store store' h
+    simp only [setRestraints, Except.ok.injEq] at h
+    subst h
+    exact ⟨fun v => ⟨[], by simp⟩, by simp⟩
+  | cons r0 rest ih =>
+    intro store store' h
+    simp only [setRestraints] at h
+    split at h
+    · exact absurd h (by simp)
+    · rename_i avg c havg
+      split at h
+      · exact absurd h (by simp)
+      · rename_i store1 h1
+        obtain ⟨hmono, hrest⟩ := ih store1 store' h
+        refine ⟨fun v => ?_, ?_⟩
+        · obtain ⟨e1, he1⟩ := setDistanceRestraint_mono tree store store1 _ _ _ _ _ h1 v
+          obtain ⟨e2, he2⟩ := hmono v
+          exact ⟨e1 ++ e2, by rw [he2, he1, List.append_assoc]⟩
+        · intro r hr
+          rcases List.mem_cons.mp hr with rfl | hr
+          · obtain ⟨rr, tt, mid, hrt, hp, hs⟩ := setDistanceRestraint_target tree store store1 _ _ _ _ _ h1
+            refine ⟨avg, c, rr, tt, mid, havg, hrt, hp, fun hnd => ?_⟩
+            obtain ⟨e2, he2⟩ := hmono tt
+            rw [he2, hs hnd]
+            simp
+          · exact hrest r hr
+
+/-- `sample_end_to_end_distances`, one batch: what is computed and who receives which sample -/
+theorem sampleBatch_spec (tree : List (Nat × Nat)) (size : Nat → Nat → Rat) (start stop : Nat)
+    (molIdxs : List Nat) (samples : List Rat) (avg contour : Rat) (calls : List EeCall)
+    (h : sampleBatch tree size start stop molIdxs samples = some (avg, contour, calls)) :
+    ∃ mid, pathFrom tree start stop = some (start :: mid ++ [stop]) ∧
+      computeAvgStepLength size (edgePath (start :: mid ++ [stop])) = some (avg, contour) ∧
+      calls.length = min molIdxs.length samples.length ∧
+      ∀ k (hk : k < calls.length), ∃ (h1 : k < molIdxs.length) (h2 : k < samples.length),
+        calls[k] = ⟨molIdxs[k], stop, start, samples[k], avg⟩ := by
+  unfold sampleBatch at h
+  split at h
+  · exact absurd h (by simp)
+  · split at h
+    · exact absurd h (by simp)
+    · rename_i path hp
+      split at h
+      · exact absurd h (by simp)
+      · rename_i a c hac
+        simp only [Option.some.injEq, Prod.mk.injEq] at h
+        obtain ⟨rfl, rfl, rfl⟩ := h
+        obtain ⟨mid, rfl⟩ := pathFrom_shape tree start stop path hp
+        refine ⟨mid, hp, hac, by simp, ?_⟩
+        intro k hk
+        simp only [List.length_map, List.length_zip] at hk
+        refine ⟨by omega, by omega, ?_⟩
+        simp
+
+theorem edgePath_length (l : List Nat) : (edgePath l).length = l.length - 1 := by
+  induction l with
+  | nil => simp [edgePath]
+  | cons a t ih =>
+    cases t with
+    | nil => simp [edgePath]
+    | cons b rest =>
+      simp only [edgePath, List.length_cons] at ih ⊢
+      omega
+
 
 /-! ### depth-first traversal of a ring -/
 
